@@ -732,10 +732,43 @@ def _write_if_changed(path: Path, text: str) -> bool:
     return True
 
 
+REFUSED = """/-
+  GENERATED by harness/extract_locks.py on every C17 check — DO NOT EDIT.
+
+  THE TRANSLATOR REFUSED THE WORKING TREE:
+    {msg}
+  so the lock-shape obligation is NOT established.  This file fails to build on purpose (a stale copy of
+  the previous shapes must not keep `Redress.Props.C17` green).
+-/
+import Redress.Model.Threads
+
+namespace Redress.Generated.LockShape
+open Redress.Threads
+
+def allShapes : List (String × List Instr) := []
+
+/-- deliberately unprovable -/
+theorem extraction_refused_obligation_not_established : (0 : Nat) = 1 := by decide
+
+theorem allShapes_wl : ∀ p ∈ allShapes, wl false p.2 = true := by decide
+
+end Redress.Generated.LockShape
+"""
+
+
 def write_generated(repo_path: str | Path, out_path: str | Path) -> dict:
-    """extract + write LockShape.lean and LockShapeAudit.lean next to it; returns the info dict"""
-    info = extract(repo_path)
+    """extract + write LockShape.lean and LockShapeAudit.lean next to it; returns the info dict.
+    If the translator refuses the tree, a LockShape.lean that FAILS to build is written and the
+    ExtractError is re-raised."""
     out = Path(out_path)
+    try:
+        info = extract(repo_path)
+    except (ExtractError, SyntaxError) as e:
+        msg = str(e).replace("-/", "- /").replace("/-", "/ -")
+        _write_if_changed(out, REFUSED.format(msg=msg))
+        _write_if_changed(out.with_name("LockShapeAudit.lean"),
+                          "/- GENERATED — extraction refused, nothing to audit -/\nimport Redress.Generated.LockShape\n")
+        raise
     info["changed"] = _write_if_changed(out, render_lean(info))
     _write_if_changed(out.with_name("LockShapeAudit.lean"), render_audit(info))
     return info
